@@ -47,3 +47,14 @@ package crypto
 //@   requires 0 <= i && i != len(ms.Sigs)
 //@   ensures found == (i < len(ms.Sigs) && ms.Sigs[i] != nil)
 //@   ensures found ==> sig == ms.Sigs[i]
+
+// private keys: signing and key derivation touch no modelled state
+//@ iface func (pk PrivateKey) Sign(msg []byte) (sig []byte, err error)
+//@   mode value
+//@   ensures true
+//@ iface func (pk PrivateKey) PublicKey() (r PublicKey)
+//@   mode value
+//@   ensures true
+//@ iface func (pk PrivateKey) RawString() (r string)
+//@   mode value
+//@   ensures true
